@@ -67,7 +67,11 @@ func (g *sgen) node(depth int) *snode {
 	case 6:
 		return &snode{kind: "incellMap", name: g.vname(), typ: []string{"int32", "string", "uint32"}[g.r.Intn(3)], sname: []string{"int32", "string", "bool"}[g.r.Intn(3)]}
 	case 7:
-		return &snode{kind: "incellStruct", name: g.vname(), sname: g.tname()}
+		sn := g.tname()
+		if g.r.Intn(2) == 0 {
+			sn = "Pair" // the same nested type name in several scopes / several times in one scope
+		}
+		return &snode{kind: "incellStruct", name: g.vname(), sname: sn}
 	case 8, 9:
 		sn := g.tname()
 		n := &snode{kind: "struct", name: sn, sname: sn}
